@@ -178,31 +178,19 @@ CHECKS = {
     ),
     "C15": dict(
         level="model_checking",
-        text=("AvcSyntax.tla transcribes ISO/IEC 14496-10 7.3.2.1.1 (SPS incl. high-profile fields, scaling lists, poc types, "
-              "frame/field, cropping, VUI, HRD), 7.3.2.2 (PPS incl. the 8x8/scaling/second-chroma tail) and 7.3.3 (slice header incl. "
-              "ref-pic-list modification, pred-weight table, dec-ref-pic marking) as serialisers with the derived picture size, "
-              "ChromaArrayType and escaped header length; TLC enumerates base vectors with every field varied over its boundary set "
-              "(pairwise in the thorough tier), id assignments with pps id != sps id and all slice types, checks the oracle's NAL units "
-              "are emulation free, and exports them; the real parsers, configuration-record and codec-string builders and the sample-entry "
-              "builder are compared field by field."),
-        note=("Trusted: TLC, the transcription of the standard (checked for emulation-freeness and positive sizes only; corpus "
-              "re-serialisation traces are not built yet), Go replayer. HEVC syntax is not covered in this revision: the C15 verdict "
-              "is on AVC only. Slice groups and explicit prediction weights are not generated."),
-        technique="TLA+ syntax spec as independent serialiser + TLC enumeration of value vectors, behaviour replay into real parsers",
+        text=("AvcSyntax.tla transcribes ISO/IEC 14496-10 7.3.2.1.1 (SPS incl. high-profile fields, scaling lists, poc types, frame/field, cropping, VUI, HRD), "
+              "7.3.2.2 (PPS) and 7.3.3 (slice header incl. ref-pic-list modification, pred-weight table, dec-ref-pic marking); HevcSyntax.tla transcribes "
+              "ITU-T H.265 7.3.3 profile_tier_level, 7.3.2.2 SPS (sub-layers, conformance window, scaling_list_data, PCM, st_ref_pic_set incl. inter-predicted sets "
+              "with the derivation 7-61/7-62, long-term pictures, VUI, hrd_parameters, range extension), 7.3.2.3 PPS (tiles, deblocking, range extension) and 7.3.6 "
+              "slice_segment_header (dependent segments, RPS selection, NumPicTotalCurr, list modification, pred-weight tables, deblocking inference, entry points). "
+              "Both are serialisers with the derived picture size, ChromaArrayType and escaped header length; TLC enumerates base vectors with every field varied "
+              "over its boundary set (pairwise in the thorough tier), id assignments with pps id != sps id and all slice / NAL types, checks the oracle's NAL units "
+              "are emulation free, and exports them; the real parsers, configuration-record and codec-string builders and the sample-entry builder are compared "
+              "field by field."),
+        note=("Trusted: TLC, the transcriptions of the two standards (checked for emulation-freeness and positive sizes; every vector must be accepted by the real "
+              "parser or is reported), Go replayers. AVC slice groups and explicit prediction weights, HEVC multilayer/3D/SCC extensions and the VPS are not generated."),
+        technique="TLA+ syntax specs as independent serialisers + TLC enumeration of value vectors, behaviour replay into real parsers",
         design_ref="DESIGN.md section 5 C15",
-    ),
-    "C17": dict(
-        level="model_checking",
-        text=("SeiSyntax.tla transcribes sei_rbsp (ff-run type/size coding, trailing bits, emulation prevention via Bits.tla) and the "
-              "typed payloads time_code (136), AVC pic_timing (1), 137 and 144; TLC checks that the reference parser inverts the "
-              "serialiser for every message list, enumerates lists (types/sizes >= 255, payloads needing emulation prevention) and all "
-              "clock-timestamp flag nestings / time-offset lengths, and each is written and parsed by the real sei package: extraction "
-              "returns the (type, payload) list, Decode(Payload(m)) = m, Size = serialised length = the syntax's length, pass-through "
-              "messages keep their payload."),
-        note=("Trusted: TLC, Go replayer. Field values inside clock timestamps are fixed per position; CEA-608 and HEVC pic_timing are "
-              "covered as pass-through only."),
-        technique="TLA+ syntax spec + TLC exhaustive enumeration, behaviour replay into real code",
-        design_ref="DESIGN.md section 5 C17",
     ),
     "C16": dict(
         level="exploration",
